@@ -79,6 +79,11 @@ func proxyErrorHandler(rw http.ResponseWriter, req *http.Request, err error) {
 }
 
 func defaultReverseProxyHTTPHandler(forwardTo *url.URL, headerInjectors []reverseproxy.HeaderInjector) http.Handler {
+	transport := http.DefaultTransport.(*http.Transport).Clone()
+	// do not ask the backend for gzip on the client's behalf: the request
+	// and the response are passed through as they are
+	transport.DisableCompression = true
+
 	handler := reverseproxy.NewHTTPHandler(
 		forwardTo,
 		&httputil.ReverseProxy{
@@ -86,7 +91,7 @@ func defaultReverseProxyHTTPHandler(forwardTo *url.URL, headerInjectors []revers
 			FlushInterval: parseReverseProxyFlushInterval(),
 			ErrorHandler:  proxyErrorHandler,
 			// TODO: customize transport
-			Transport: http.DefaultTransport.(*http.Transport).Clone(),
+			Transport: transport,
 		},
 		headerInjectors,
 	)
